@@ -15,9 +15,14 @@ def build(tier, seed):
     import repairgen
     for sh, lv in ((['REPbad', 'BLK'], 1), (['REP', 'BLKbad'], 2)):
         J.append(repairgen.job('C19', sh, lv, timeout=1800 if tier == 'quick' else 7200))
+    # copy detection during scan: hashes inherited only from a fully hashed stable file with the same name, size and time-stamp, and only provisionally (scan_file, shared with C11)
+    import C11
+    for j in C11.build(tier, seed)['jobs']:
+        if 'othersame' in j.name:
+            j.name = j.name.replace('C11/', 'C19/copy_detection/'); J.append(j)
     import C10_info
     J += [j for j in C10_info.record_jobs('C19', tier) if '/f/blocks2-run1/hash16' in j.name]
     return dict(jobs=J, bounds={'block': 64, 'disks': 2},
         assumptions=['memhash = injective uninterpreted function (keyed by kind and seed)', 'hash table lookup replaced by the real compare callback on one candidate', 'state_sync protocol with recorder callees'],
         trusted=['cbmc 6.11.0', 'kissat', 'stubs'],
-        outside=['copy detection during scan (scan.c) and the in-sync verification of inherited hashes (state_sync_process): the scan / stripe-level harnesses were not completed (DESIGN.md)', 'directory import walking', '--force-nocopy handling while loading'])
+        outside=['the in-sync verification of inherited hashes (state_sync_process): the stripe-level harness does not finish (DESIGN.md)', 'directory import walking', '--force-nocopy handling while loading'])
